@@ -160,6 +160,14 @@ class Symb:
       return self._call(t)
     return self.opaque_sym(t)
 
+  def _shape_arg(self, args):
+    """x.reshape(a, b), x.reshape((a, b)), jnp.reshape(x, [a, b]) all carry the shape tuple_(a, b)"""
+    if len(args) == 1 and args[0].op in ('tuple', 'list') and not any(e.op == 'star' for e in args[0].args):
+      args = list(args[0].args)
+    elif len(args) == 1:
+      return self._as_expr(self.conv(args[0]))
+    return self.f('tuple_', *[self._as_expr(self.conv(x)) for x in args])
+
   def _as_expr(self, x):
     if x is sp.true:
       return sp.Symbol('True_')
@@ -190,6 +198,10 @@ class Symb:
         return self.conv(recv)
       if name in ('dot',):
         return self.f('mm', self.conv(recv), *[self.conv(x) for x in args])
+      if name == 'reshape' and args:
+        return self.f('reshape', self.conv(recv), self._shape_arg(args))
+      if name == 'transpose' and not args and not kw:
+        return self.f('transpose', self.conv(recv))
       if name in ('sum', 'mean', 'max', 'min', 'reshape', 'transpose', 'ravel', 'any', 'all'):
         nm = {'sum': 'asum', 'mean': 'amean', 'max': 'amax', 'min': 'amin'}.get(name, name)
         return self.f(nm, self.conv(recv), *[self._as_expr(self.conv(x)) for x in args],
@@ -218,6 +230,8 @@ class Symb:
         return self.conv(args[0]) - self.conv(args[1])
       if d in ('jax.numpy.divide', 'jax.numpy.true_divide') and len(args) == 2:
         return self.conv(args[0]) / self.conv(args[1])
+      if d in ('jax.numpy.reshape', 'numpy.reshape') and len(args) == 2:
+        return self.f('reshape', self.conv(args[0]), self._shape_arg([args[1]]))
       if d in ('jax.numpy.expand_dims', 'numpy.expand_dims') and len(args) == 2 and args[1].op == 'const' and isinstance(cval(args[1]), int) and cval(args[1]) >= 0:
         return self.f('expand_dims', self.conv(args[0]), sp.Integer(cval(args[1])))
       if d in ('jax.numpy.equal', 'jax.numpy.not_equal') and len(args) == 2:
